@@ -1918,7 +1918,9 @@ func TestDriverRegistry(t *testing.T) {
 	side := NewSidecar("registry", seed,
 		"case = one history on the real chain: (registry as found | wiped + real InitGenesis | real InitChain of a fresh app) with one of the 4 flag combinations, then 4..14 steps of "+
 			"deploy-erc20 / deploy-staking / update-params (tx, router, message server) by whitelisted and other authorities, Disabled toggles and SetCustomPrecompiledContractMeta through the keeper, supply changes; "+
-			"whole registry compared after every step, EVM calls to <=14 candidate addresses x 5 selectors x 4 modes at 2..3 probe points; "+
+			"whole registry compared after every step, EVM calls to <=14 candidate addresses x 5 selectors x 4 modes at 2..3 probe points (direct, through CALL / STATICCALL forwarders, and from the CONSTRUCTOR of a creation message); "+
+			"between the steps non-consensus traffic in changing orders: eth_call pinned to an OLDER committed height (answer compared with that version's registry), check / simulate / query calls between FinalizeBlock and Commit of a deploy block, "+
+			"simulated deployments never included, each followed or preceded by a delivered call to the address concerned; "+
 			"non-trivial = at least one deployment by message succeeded and at least one step was refused, distinct step/outcome sequence")
 	cases := NewCases(dir, "From Evm Require Import Registry CorrRegistry.", "registry_mismatches")
 
